@@ -70,6 +70,7 @@ def check(run, P):
     C = P.cls(EC)
     _post(run, P, C)
     _front(run, P, C)
+    _scope(run, P, C)
     _mark(run, P, C)
     _reset(run, P, C)
     _sinks(run, P)
@@ -134,8 +135,7 @@ def _post(run, P, C):
                "lets it run before them")
     # membership exits
     stmt_param = helper.params[0]
-    wanted = {"executed": "self.executed_ids", "planned": "self.plan_id_set",
-              "batch": batch}
+    wanted = {"executed": "self.executed_ids", "batch": batch}
     for label, cont in wanted.items():
         tests = []
         for n in g.nodes:
@@ -152,6 +152,32 @@ def _post(run, P, C):
                          f"({cont}) before descending",
                why="without this exit a statement can be planned or executed twice "
                    "in one step")
+    # a statement that is planned (later) and needed now is pulled forward
+    ptests = [n for n in g.nodes if n.kind == "test" and isinstance(n.ast, ast.Compare)
+              and len(n.ast.ops) == 1 and isinstance(n.ast.ops[0], ast.In)
+              and dotted(n.ast.comparators[0]) == "self.plan_id_set"]
+    ok = False
+    why_not = "no test on self.plan_id_set"
+    if ptests:
+        ifnode = ptests[0].label
+        key = norm(ptests[0].ast.left)
+        body_src = [norm(s_) for s_ in ifnode.body]
+        leaves = any(isinstance(x, (ast.Return, ast.Continue, ast.Break, ast.Raise))
+                     for s_ in ifnode.body for x in ast.walk(s_))
+        rm_plan = any(b in (f"self.plan.remove({key})",) for b in body_src)
+        rm_set = any(b in (f"self.plan_id_set.remove({key})", f"self.plan_id_set.discard({key})")
+                     for b in body_src)
+        ok = not leaves and rm_plan and rm_set and not g.always_preceded([loop], ptests)
+        why_not = ("returns without re-planning" if leaves else
+                   "does not remove the id from both self.plan and self.plan_id_set")
+    run.ob("C04.post", helper, ptests[0].ast if ptests else helper.node, ok,
+           construct="a statement that is already planned is taken out of self.plan and "
+                     "self.plan_id_set and re-planned with its dependencies"
+                     + ("" if ok else f" ({why_not})"),
+           why="'already planned, nothing to do' leaves a dependency of a requested "
+               "statement behind it in the plan: the requested statement runs before "
+               "its dependency (a -> b -> {out, x}, x requested while a runs: a, x, b, "
+               "out); re-planning without removal runs it twice")
 
 
 def _front(run, P, C):
@@ -160,9 +186,19 @@ def _front(run, P, C):
     if call is None:
         raise AnalysisError("ExecutionController.__call__ not found")
     # how does __call__ consume?
+    aliases = {t.id for s_ in ast.walk(call.node) if isinstance(s_, ast.Assign)
+               and dotted(s_.value) == "self.plan" for t in s_.targets if isinstance(t, ast.Name)}
+    rebinds = [s_ for s_ in ast.walk(up.node) if isinstance(s_, ast.Assign)
+               and any(dotted(t) == "self.plan" for t in s_.targets)]
+    run.ob("C04.front", call, call.node, not (aliases and rebinds),
+           construct="__call__ reads self.plan afresh on every iteration"
+                     + (f" (holds it in {sorted(aliases)} while update_plan rebinds "
+                        f"self.plan)" if aliases and rebinds else ""),
+           why="update_plan replaces the list object; a loop that keeps draining the "
+               "old object never sees the statements requested while the step runs")
     pops = [x for x in ast.walk(call.node) if isinstance(x, ast.Call)
             and isinstance(x.func, ast.Attribute) and x.func.attr in ("pop", "popleft")
-            and dotted(x.func.value) == "self.plan"]
+            and (dotted(x.func.value) == "self.plan" or dotted(x.func.value) in aliases)]
     if len(pops) != 1:
         raise AnalysisError("__call__: expected exactly one pop from self.plan")
     p = pops[0]
@@ -232,10 +268,42 @@ def _front(run, P, C):
            why="a planned statement missing from the id set is planned a second time")
 
 
+def _scope(run, P, C):
+    """Statement ids are resolved in the table of the phase being run."""
+    for mname in ("update_plan", "__call__"):
+        m = C.methods[mname]
+        ph = m.params[1]
+        tables = {}
+        for x in ast.walk(m.node):
+            if isinstance(x, ast.Assign) and len(x.targets) == 1 and isinstance(x.targets[0], ast.Name):
+                tables[x.targets[0].id] = x.value
+        lookups = []
+        for x in ast.walk(m.node):
+            if isinstance(x, ast.Subscript) and isinstance(x.ctx, ast.Load):
+                base = x.value
+                src = tables.get(base.id) if isinstance(base, ast.Name) else base
+                if src is not None and "id_to_stmt" in ast.unparse(src):
+                    lookups.append((x, src))
+        if not lookups:
+            raise AnalysisError(f"ExecutionController.{mname}: statement lookup not found")
+        for x, src in lookups:
+            ok = norm(src) == f"{ph}.id_to_stmt"
+            run.ob("C04.front", m, x, ok,
+                   construct=f"{mname}: ids are resolved in {norm(src)} (the phase being run: "
+                             f"{ph}.id_to_stmt)",
+                   why="statement ids need only be unique within a phase: a table spanning "
+                       "the whole code resolves a reused id to another phase's statement, "
+                       "which is then executed in this phase's step")
+
+
 def _mark(run, P, C):
     call = C.methods["__call__"]
     g = CFG(call.node)
     pop = _nodes_calling(g, "self.plan.pop") + _nodes_calling(g, "self.plan.popleft")
+    for al in sorted({t.id for s_ in ast.walk(call.node) if isinstance(s_, ast.Assign)
+                      and dotted(s_.value) == "self.plan" for t in s_.targets
+                      if isinstance(t, ast.Name)}):
+        pop += _nodes_calling(g, f"{al}.pop") + _nodes_calling(g, f"{al}.popleft")
     rem = _nodes_calling(g, "self.plan_id_set.remove") + _nodes_calling(g, "self.plan_id_set.discard")
     mark = _nodes_calling(g, "self.executed_ids.add")
     guard = [n for n in g.nodes if n.kind == "test" and any(
@@ -300,21 +368,49 @@ def _reset(run, P, C):
     reset = C.methods.get("reset")
     if init is None or reset is None:
         raise AnalysisError("ExecutionController.__init__/reset not found")
+    # per-step state: attributes of the controller that update_plan / __call__
+    # (and their nested helpers) change - in place or by rebinding
+    _MUT = {"append", "add", "remove", "pop", "popleft", "update", "extend", "extendleft",
+            "insert", "discard", "clear", "appendleft"}
     containers = []
-    for meth in C.methods.values():
-        for s in func_body_stmts(meth.node):
-            if isinstance(s, ast.Assign) and len(s.targets) == 1:
-                d = dotted(s.targets[0])
-                v = s.value
-                is_cont = isinstance(v, (ast.List, ast.Set, ast.Dict)) or (
-                    isinstance(v, ast.Call) and dotted(v.func) in ("set", "list", "dict", "deque")) \
-                    or (isinstance(v, ast.BinOp) and isinstance(v.op, ast.Add)
-                        and "self.plan" in ast.unparse(v))
-                if d and d.startswith("self.") and d.count(".") == 1 and is_cont \
-                        and d not in containers:
-                    containers.append(d)
+    for mname in ("update_plan", "__call__"):
+        meth = C.methods.get(mname)
+        if meth is None:
+            continue
+        for x in ast.walk(meth.node):
+            d = None
+            if isinstance(x, ast.Call) and isinstance(x.func, ast.Attribute) and x.func.attr in _MUT:
+                d = dotted(x.func.value)
+            elif isinstance(x, (ast.Assign, ast.AugAssign)):
+                for t in (x.targets if isinstance(x, ast.Assign) else [x.target]):
+                    dd = dotted(t) or (dotted(t.value) if isinstance(t, ast.Subscript) else None)
+                    if dd and dd.startswith("self.") and dd.count(".") == 1 and dd not in containers:
+                        containers.append(dd)
+            elif isinstance(x, ast.Delete):
+                for t in x.targets:
+                    if isinstance(t, ast.Subscript):
+                        d = dotted(t.value)
+            if d and d.startswith("self.") and d.count(".") == 1 and d not in containers:
+                containers.append(d)
+    containers.sort()
     if len(containers) < 3:
-        raise AnalysisError(f"ExecutionController: containers {containers}")
+        raise AnalysisError(f"ExecutionController: per-step containers {containers}")
+    fresh = set()
+    for s in func_body_stmts(init.node):
+        if isinstance(s, ast.Assign):
+            v = s.value
+            is_new = isinstance(v, (ast.List, ast.Set, ast.Dict, ast.ListComp, ast.SetComp, ast.DictComp)) \
+                or (isinstance(v, ast.Call) and dotted(v.func) in ("set", "list", "dict", "deque"))
+            for t in s.targets:
+                if is_new and dotted(t):
+                    fresh.add(dotted(t))
+    for cont in containers:
+        run.ob("C04.reset", init, init.node, cont in fresh,
+               construct=f"{cont} is created per controller in __init__",
+               why="a container defined on the class (or handed in un-copied) and changed "
+                   "in place is shared by every controller in the process: a second "
+                   "stepper's reset() wipes the bookkeeping of one that is suspended "
+                   "in the middle of a step")
     for cont in containers:
         ok = False
         for s in func_body_stmts(reset.node):
